@@ -22,8 +22,22 @@ func init() {
 }
 
 // cellIdentity maps an address (Alloc, or FreeVar bound to an Alloc of an enclosing function) to the Alloc.
+// fieldCellRep: one representative value per field of a collector object of package v2 (`bulkResults.results`,
+// `.hasErrors`): the field is the cell, whichever function reads or writes it.
+var fieldCellRep = map[*types.Var]ssa.Value{}
+
 func cellIdentity(addr ssa.Value) ssa.Value {
 	switch a := addr.(type) {
+	case *ssa.FieldAddr:
+		f := fieldOfAddr(a)
+		if f == nil || f.Pkg() == nil || f.Pkg().Path() != pkgV2 {
+			return nil
+		}
+		if rep, ok := fieldCellRep[f]; ok {
+			return rep
+		}
+		fieldCellRep[f] = a
+		return a
 	case *ssa.Alloc:
 		return a
 	case *ssa.FreeVar:
@@ -102,7 +116,7 @@ func runC18(c *Ctx) {
 			case *ssa.UnOp:
 				if cell := loadOfCell(x); cell != nil && !vs.cells[cell] {
 					vs.cells[cell] = true
-					for _, f := range withLiterals(fn) {
+					for _, f := range append(withLiterals(fn), packageHelpersOf(fn, pkgV2)...) {
 						for _, b := range f.Blocks {
 							for _, ins := range b.Instrs {
 								if st, ok := ins.(*ssa.Store); ok && cellIdentity(st.Addr) == cell {
@@ -382,6 +396,22 @@ func runC18(c *Ctx) {
 			for _, f := range c.CalleesOf(ci) {
 				if f.Parent() == fn {
 					out = append(out, f)
+				}
+			}
+			// a method of the result collector (`results.addError(code, err)`)
+			if g := staticCallee(ci); g != nil && len(out) == 0 && len(g.Blocks) > 0 && fnPkgPath(origin(g)) == pkgV2 && g.Signature.Recv() != nil && g != fn {
+				touches := false
+				for _, b := range g.Blocks {
+					for _, ins := range b.Instrs {
+						if st, ok := ins.(*ssa.Store); ok {
+							if id := cellIdentity(st.Addr); id != nil && (res.cells[id] || flag.cells[id]) {
+								touches = true
+							}
+						}
+					}
+				}
+				if touches {
+					out = append(out, g)
 				}
 			}
 			return out
